@@ -37,10 +37,10 @@ def run_oracle(impl, programs, tag):
     nw = min(core.NCPU, max(1, len(programs) // 8))
     parts = [programs[i::nw] for i in range(nw)]
 
-    def one(k):
+    def attempt(k):
         env = core.impl_env(impl, LD_PRELOAD=str(SHIM), VCLOCK_TICK='0')
         p = subprocess.run([core.PY, '-m', 'harness.drivers.e1'], input=json.dumps(dict(programs=parts[k], root=str(root / str(k)))),
-                           env=env, cwd=str(impl), stdout=subprocess.PIPE, stderr=subprocess.PIPE, text=True, timeout=3000)
+                           env=env, cwd=str(impl), stdout=subprocess.PIPE, stderr=subprocess.PIPE, text=True, timeout=900)
         for line in p.stdout.splitlines():
             if line.startswith('RESULT '):
                 r = json.loads(line[7:])
@@ -50,6 +50,17 @@ def run_oracle(impl, programs, tag):
                     raise RuntimeError('virtual clock shim not loaded')
                 return r['out']
         raise RuntimeError('e1 driver failed rc=%s: %s' % (p.returncode, p.stderr[-2000:]))
+
+    def one(k):
+        # a stuck or crashed worker is a harness problem, never a verdict: retry once, then give up (exit 2)
+        try:
+            return attempt(k)
+        except (RuntimeError, subprocess.TimeoutExpired) as e:
+            first = e
+        try:
+            return attempt(k)
+        except (RuntimeError, subprocess.TimeoutExpired) as e:
+            raise RuntimeError('oracle worker failed twice: %r / %r' % (first, e))
     try:
         with ThreadPoolExecutor(max_workers=nw) as ex:
             res = list(ex.map(one, range(nw)))
@@ -166,6 +177,8 @@ def py_spec_snaps(o, tick):
                 pend.pop(fs, None)
         elif k == 'A':
             now += op[1]
+        elif k == 'W':
+            continue
         elif k == 'S':
             snap = {}
             for c in reg:
@@ -265,6 +278,26 @@ def hypotheses(o):
     return res, wit
 
 
+def wrapped_always_enabled(o):
+    """A function decorated by the profiler must execute with the profiler enabled in its thread (the
+    wrapper enables around every call / generator step / coroutine step).  Checked on the recorded
+    history: an L event of a decorated function's code in a thread that is not enabled is a violation."""
+    codes = o['codes']
+    en, wrapped = set(), set()
+    for op in o['ops']:
+        k = op[0]
+        if k == 'E':
+            en.add(op[1])
+        elif k == 'D':
+            en.discard(op[1])
+        elif k == 'W':
+            wrapped.add(op[1])
+        elif k == 'L':
+            if codes[op[2]]['lbl'] in wrapped and op[1] not in en:
+                return False, 'decorated function (label %d) executed line %d with the profiler off' % (codes[op[2]]['lbl'], op[5])
+    return True, ''
+
+
 def impl_hits(snap):
     return [[lbl, [[l, h] for l, h, t in ents]] for lbl, ents in snap['timings']]
 
@@ -305,7 +338,13 @@ def classify(o, hyp, wit, aspect):
     """Map a failing case to a known-finding id by the hypothesis it falls outside of."""
     if not hyp['NoCollision']:
         cols = [w for w in wit.get('collisions', []) if w['same_bytecode']]
-        if any(w['a_registered'] and w['b_registered'] for w in cols):
+        seen_after, rereg = set(), False
+        for op in o['ops']:
+            if op[0] == 'G':
+                if op[1] in seen_after:
+                    rereg = True        # a function that was registered before is registered again
+                seen_after.add(op[2])
+        if rereg and any(w['a_registered'] and w['b_registered'] for w in cols):
             return 'padcollide'
         if any(w['a_registered'] != w['b_registered'] for w in cols):
             return 'twin'
@@ -364,13 +403,18 @@ def run_property(prop, module, theorems, tier, seed, nquick, nthorough, feature_
         spec = py_spec_snaps(o, p.get('tick', 0))
         impl_s = [x['timings'] for x in o['snaps']]
         ok, why = True, ''
-        if aspect in ('hits', 'time'):
+        outside = not hyp['SegmentsClosed']     # code that switches its own profiler off mid-line: model only
+        if o.get('not_registered'):
+            ok, why = False, 'add_module did not register %r' % (o['not_registered'],)
+        elif aspect in ('hits', 'time') and not outside:
             if [spec_hits(s) for s in spec] != [impl_hits(x) for x in o['snaps']]:
                 ok, why = False, 'reported hit counts differ from the executed line events'
             elif aspect == 'time' and not p['threads'] and spec != impl_s:
                 ok, why = False, 'reported times differ from the per-activation specification'
         if aspect == 'mono':
             ok, why = snaps_wf_monotone(o)
+        if ok and aspect in ('hits', 'time'):
+            ok, why = wrapped_always_enabled(o)
         if p['threads']:
             if any(v != 0 for v in o.get('counts', {}).values()) or not o.get('gettrace_clear', True) or not o.get('tool_free', True):
                 ok, why = False, 'enable count / trace slot / tool not released after the threads finished: %r' % (o.get('counts'),)
@@ -399,7 +443,8 @@ def run_property(prop, module, theorems, tier, seed, nquick, nthorough, feature_
                                        model='concrete tracer model disagrees with the implementation'))
         if v is not None:
             coq_ok = {'hits': v[1], 'time': v[1] and v[2], 'mono': v[3]}[aspect]
-            if coq_ok != ok and not p['threads'] and (o.get('errA') == o.get('errB')):
+            if coq_ok != ok and not p['threads'] and (o.get('errA') == o.get('errB')) and hyp.get('SegmentsClosed', True) \
+                    and not o.get('not_registered') and 'decorated function' not in why:
                 res.infra_errors.append('Coq-side and Python-side specification disagree on program %d (%s vs %s: %s)' % (i, coq_ok, ok, why))
         if not ok:
             res.spec_fails.append(dict(case=sample(p, o, 60), program=p['files'], why=why, finding=fid,
@@ -488,18 +533,18 @@ def main(P):
     P.snap()
 """)], ['fixed-recursion'])
 
-FIXED_TWIN = fixed([('main.py', """# f is registered; its byte-identical twin u lives at the same lines of another file and is not
-def f(x, d):
+FIXED_TWIN = fixed([('main.py', """# f0 is registered; its byte-identical twin (bound as u0) lives at the same lines of another file and is not
+def f0(x, d):
     y = x + 1
     return y
 def main(P):
-    P.reg('f')
+    P.reg('f0')
     with P.prof:
         for _ in range(5):
-            P.fn('u')(1, 0)
+            P.fn('u0')(1, 0)
     P.snap()
 """), ('twin.py', """# twin file
-def u(x, d):
+def f0(x, d):
     y = x + 1
     return y
 """)], ['fixed-twin'])
